@@ -136,6 +136,9 @@ func (g *gen) attrsValid(n int) {
 			parts := make([]string, nn)
 			for j := range ts {
 				ts[j] = g.r.intn(65536)
+				if g.r.chance(1, 4) { // values that mean something elsewhere: attribute types incl. the legacy 0x8020 alias, range ends
+					ts[j] = g.r.pick([]int{0x8020, 0x0020, 0x8028, 0x0008, 0x000A, 0x7FFF, 0x8000, 0xFFFF, 0x0000})
+				}
 				parts[j] = fmt.Sprint(ts[j])
 			}
 			set = "ua:" + strings.Join(parts, ",")
